@@ -46,23 +46,24 @@ func (c *Case) EffLookback() int64 {
 }
 
 type GenOpts struct {
-	MaxSeries   int
-	MaxDepth    int
-	NoTies      bool // make all values at one timestamp pairwise distinct
-	IntValues   bool // only exactly summable values (k/4), no NaN/Inf
-	Specials    int  // one sample in Specials (default 10) is NaN, +Inf, -Inf or 0, a quarter each
-	OnlyNaN     bool // ... is NaN
-	Vocabulary  string // "" = full native vocabulary; "model" = the fragment modelled in Coq
-	NoAt        bool
-	NoStartEnd  bool
-	Fallbacks   bool // also functions the engine does not implement (answered through the fallback)
+	MaxSeries    int
+	MaxDepth     int
+	NoTies       bool   // make all values at one timestamp pairwise distinct
+	IntValues    bool   // only exactly summable values (k/4), no NaN/Inf
+	Specials     int    // one sample in Specials (default 10) is NaN, +Inf, -Inf or 0, a quarter each
+	OnlyNaN      bool   // ... is NaN
+	UpperLabel   bool   // series also carry a label whose name starts with an upper-case letter (it sorts before __name__)
+	Vocabulary   string // "" = full native vocabulary; "model" = the fragment modelled in Coq
+	NoAt         bool
+	NoStartEnd   bool
+	Fallbacks    bool // also functions the engine does not implement (answered through the fallback)
 	SelectorOnly bool
 	Focus        string // "" | range | agg | bin | func : construct forced at the top of the expression
 	Epoch        bool   // shift the window so that one of its steps is at -1ms (times around and before the epoch)
 }
 
 var metricNames = []string{"foo", "bar"}
-var labelVals = map[string][]string{"a": {"x", "y"}, "b": {"1", "2"}, "c": {"p", "q", "r"}}
+var labelVals = map[string][]string{"a": {"x", "y"}, "b": {"1", "2"}, "c": {"p", "q", "r"}, "Z": {"u", "v"}}
 
 func pick[T any](r *rand.Rand, xs []T) T { return xs[r.Intn(len(xs))] }
 
@@ -97,7 +98,7 @@ func genWindow(r *rand.Rand) Window {
 
 func (w Window) fixInstant() Window { w.End = w.Start; w.Step = 0; return w }
 
-func genLabels(r *rand.Rand, used map[string]bool) labels.Labels {
+func genLabels(r *rand.Rand, used map[string]bool, upperLabel bool) labels.Labels {
 	for try := 0; try < 200; try++ {
 		var kv []string
 		if r.Intn(12) != 0 {
@@ -111,6 +112,9 @@ func genLabels(r *rand.Rand, used map[string]bool) labels.Labels {
 			if r.Intn(p) != 0 {
 				kv = append(kv, n, pick(r, labelVals[n]))
 			}
+		}
+		if upperLabel && r.Intn(3) != 0 {
+			kv = append(kv, "Z", pick(r, labelVals["Z"]))
 		}
 		l := labels.FromStrings(kv...)
 		if len(l) == 0 || used[l.String()] {
@@ -140,7 +144,7 @@ func genData(r *rand.Rand, w Window, lb int64, o GenOpts) []SeriesData {
 	grid := w.Grid()
 	var out []SeriesData
 	for i := 0; i < n; i++ {
-		l := genLabels(r, used)
+		l := genLabels(r, used, o.UpperLabel)
 		if l == nil {
 			break
 		}
@@ -365,6 +369,9 @@ func (g *qgen) labelList() string {
 			ls = append(ls, n)
 		}
 	}
+	if g.o.UpperLabel && g.r.Intn(2) == 0 {
+		ls = append(ls, "Z")
+	}
 	return strings.Join(ls, ", ")
 }
 
@@ -419,7 +426,7 @@ func (g *qgen) vec(d int) string {
 		if g.r.Intn(4) == 0 {
 			return fmt.Sprintf("histogram_quantile(%s, %s)", g.qparam(d-1), g.vec(d-1))
 		}
-		return "-" + g.paren(g.vec(d-1))
+		return pick(g.r, []string{"-", "-", "+"}) + g.paren(g.vec(d-1))
 	case k == 18:
 		return "(" + g.vec(d-1) + ")"
 	default:
@@ -561,7 +568,12 @@ func (g *qgen) aggOf(d int) string {
 	case 1:
 		return fmt.Sprintf("quantile%s (%s, %s)", mod, g.qparam(d-1), g.vec(d-1))
 	}
-	return fmt.Sprintf("%s%s (%s)", op, mod, g.vec(d-1))
+	operand := g.vec(d - 1)
+	if g.r.Intn(10) == 0 {
+		// a sign between the aggregation and its operand (the grouping hint must not pass through it)
+		operand = pick(g.r, []string{"+", "+", "-"}) + g.paren(operand)
+	}
+	return fmt.Sprintf("%s%s (%s)", op, mod, operand)
 }
 
 func (g *qgen) funcOf(d int) string {
@@ -611,6 +623,19 @@ func genQuery(r *rand.Rand, w Window, o GenOpts) string {
 		}
 		return q
 	case "agg":
+		if r.Intn(10) == 0 {
+			// a selector reached from the aggregation through signs and parentheses only
+			sign := pick(r, []string{"+", "+", "-", "+(+", "(+"})
+			closing := strings.Repeat(")", strings.Count(sign, "("))
+			sel := g.vecSelector()
+			switch r.Intn(3) {
+			case 0:
+				return fmt.Sprintf("%s by (%s) (%s%s%s)", pick(r, []string{"sum", "max", "count", "avg"}), g.labelList(), sign, sel, closing)
+			case 1:
+				return fmt.Sprintf("%s without (%s) (%s%s%s)", pick(r, []string{"sum", "min", "count", "stddev"}), g.labelList(), sign, sel, closing)
+			}
+			return fmt.Sprintf("%s by (%s) (%d, %s%s%s)", pick(r, []string{"topk", "bottomk"}), g.labelList(), 1+r.Intn(3), sign, sel, closing)
+		}
 		return g.aggOf(d)
 	case "bin":
 		if r.Intn(6) == 0 {
@@ -673,7 +698,7 @@ func genCase(seed int64, id int, o GenOpts) *Case {
 				for k, le := range les {
 					var smp []Sample
 					for t := c.Window.Start - 200_000; t <= c.Window.End+10_000; t += 15_000 {
-						v := float64((k + 1) * (3 + i%4)) + float64(t/15_000%7)
+						v := float64((k+1)*(3+i%4)) + float64(t/15_000%7)
 						if variant == 4 && k == 1 && (t/15_000)%3 == 0 {
 							v = 1 // below the previous bucket: non-monotonic
 						}
